@@ -1,5 +1,6 @@
 import Xsm.Proofs.Trace
 import Xsm.Proofs.Pure
+import Xsm.Proofs.Agree
 /-!
 # C05 — sync, async and pure engines compute the same behaviour
 
@@ -15,9 +16,10 @@ cross-engine monitor compares the two real engines directly at every drained poi
   count and mark self-raised events for the chain breaker).
 * selection does not depend on the engine at all (`selection_engine_independent`, definitional).
 
-Not proved: agreement of whole runs (drain discipline `drainLoop` vs `asyncDrain`) — the two engines
-bound different things once `maxIterations` is reached (C13), so whole-run agreement only holds for
-cut-free runs; it is validated by the monitor.
+Agreement of whole runs (drain discipline `drainLoop` vs `asyncDrain`) is proved in the section "whole
+runs" at the end of this file (`send_agree`, `start_agree`, `run_agree`): the two engines bound different
+things once `maxIterations` is reached (C13), so whole-run agreement holds for cut-free runs only (and the
+side condition is necessary: see the last example); the monitor validates it on the real engines.
 
 The pure API (`initial_transition` / `transition`, with the repairs of findings F4, F5, F32) is modelled in
 `Xsm/Model/Pure.lean` FROM the sync engine's own definitions (the probe is a `SyncInterpreter` subclass):
@@ -323,5 +325,313 @@ example : DISorted pM [(["A"], [["A", "a2"]])] := by
   simp only [List.mem_singleton] at hkv
   subst hkv
   exact List.pairwise_singleton _ _
+
+/-! ## Whole runs: the sync and the async engine agree as long as neither bound is reached
+
+Helper lemmas: `Xsm/Proofs/Agree.lean`. The two engines are ONE set of definitions; they differ in
+
+* **queue bookkeeping** — the async hooks count every self-sent event in `raiseDepth` and flag the queued
+  entry `self := true` (for the chain breaker); the sync drain has a per-drain budget instead. `eraseQ`
+  forgets exactly the counter and the flags. `errors` (the async engine's count of logged failures; the sync
+  engine raises to the caller instead) is NOT erased: under the hypotheses below it is equal on both sides.
+* **the queue of an interpreter that is no longer running** — `enqueue` refuses, `send` returns at once, so
+  it is never read again; the sync drain clears it, the async loop just exits and leaves it. `dropDead`
+  forgets it. (`start()` is the one command that would resurrect it; runs start from the empty state.)
+* **the synthetic event of `start()`** — entry actions run by `start()` are handed `entry.<state id>` by the
+  sync engine and `___xstate_statemachine_init___` by the async one: the records differ in that tag
+  (`StartTag`), and user code that looks at the event name could tell them apart (`StartBlind` excludes it).
+* **coroutine actions** — refused by the sync engine (`NotSupportedError`; inside a `choose` branch the
+  refusal is even contained and only logged), awaited by the async one: `NoCoroutine` excludes them.
+* **what happens at the bound and on failure** — the sync drain discards what is queued after
+  `maxIterations` dequeued events, the async breaker purges the chain once MORE than `maxIterations`
+  self-sent events were counted; a failing macrostep aborts the sync drain (the rest stays queued, the error
+  is raised) while the async loop logs it and goes on. So agreement is claimed for runs in which neither
+  bound is reached (`sendTrips … = 0`, `sendCut … = false`; `CutFree`) and the sync engine raises nothing
+  (`(syncSend …).err = none`; `NoFail`) — by `Sim.err` the async engine then logs nothing either.
+
+All side conditions are decidable predicates over the run; `ShortChains` ("fewer than `maxIterations` events
+sent to itself per command") implies `CutFree` (`send_bounds_of_short_chain`, `run_agree_of_short_chains`). -/
+section whole_runs
+open XSM.Bisim XSM.Term
+
+/-- `eraseQ`-equality, spelled out: everything equal but the counter and the `self` flags -/
+theorem eraseQ_eq_iff (a b : St) :
+    eraseQ a = eraseQ b ↔
+      (a.cfg = b.cfg ∧ a.hist = b.hist ∧ a.status = b.status ∧ a.ctx = b.ctx ∧ a.err = b.err ∧
+       a.errors = b.errors ∧ a.trace = b.trace ∧ a.queue.map (·.ev) = b.queue.map (·.ev)) := by
+  rw [← sim_eq_iff]
+  exact ⟨fun h => ⟨h.cfg, h.hist, h.status, h.ctx, h.err, h.errors, h.trace, h.queue⟩,
+    fun ⟨h1, h2, h3, h4, h5, h6, h7, h8⟩ => ⟨h1, h2, h3, h4, h5, h6, h7, h8⟩⟩
+
+/-- the command-level relation, spelled out: as above, the traces related by `T`, and the queues compared
+    only while the interpreter is running -/
+theorem agree_spelled (T : List String → List String → Prop) (a b : St) :
+    Agrees T a b ↔
+      (a.cfg = b.cfg ∧ a.hist = b.hist ∧ a.status = b.status ∧ a.ctx = b.ctx ∧ a.err = b.err ∧
+       a.errors = b.errors ∧ T a.trace b.trace ∧
+       (a.status = "running" → a.queue.map (·.ev) = b.queue.map (·.ev))) := agree_iff a b
+
+/-- … and with equal traces it is equality of the erasures of what a caller can see -/
+theorem agree_eq_eraseQ (a b : St) : Agrees Eq a b ↔ eraseQ (dropDead a) = eraseQ (dropDead b) :=
+  agree_eq_iff a b
+
+/-- **(1a) the hooks differ only in their sends, and those commute with the erasure** -/
+theorem sends_commute_with_eraseQ (u : UEnv) (m : Machine) (e : Ev) (s : St) :
+    eraseQ ((hooksAsync u m).snd e s) = (hooksFlagged u m).snd e (eraseQ s) ∧
+    eraseQ ((hooksAsync u m).sndRaise e s) = (hooksFlagged u m).sndRaise e (eraseQ s) ∧
+    eraseQ ((hooksAsyncStart u m).snd e s) = (hooksFlagged u m).snd e (eraseQ s) ∧
+    eraseQ ((hooksAsyncStart u m).sndRaise e s) = (hooksFlagged u m).sndRaise e (eraseQ s) := by
+  have h1 : eraseQ (enqueueQ true e { s with raiseDepth := s.raiseDepth + 1 }) = enqueue e (eraseQ s) := by
+    unfold enqueue enqueueQ eraseQ
+    by_cases hr : s.status = "running"
+    · simp [hr]
+    · simp [hr]
+  have h2 : eraseQ (enqueue e s) = enqueue e (eraseQ s) := by
+    unfold enqueue enqueueQ eraseQ
+    by_cases hr : s.status = "running"
+    · simp [hr]
+    · simp [hr]
+  exact ⟨h1, h1, h2, h2⟩
+
+/-- **(1b) hook-level simulation.** With the async engine's hooks (`hooksAsync` while the loop is
+    processing, `hooksAsyncStart` during `start()`) on one side and the sync engine's on the other, every
+    layer of the EXECUTE side takes `eraseQ`-equal states to `eraseQ`-equal states — for every action list,
+    plan, event and fuel (no coroutine actions: the sync engine refuses those). -/
+theorem hooks_simulation (u : UEnv) (m : Machine) (hu : NoCoroutine u) (hA : Hooks)
+    (hh : hA = hooksAsync u m ∨ hA = hooksAsyncStart u m) {a b : St} (h : eraseQ a = eraseQ b) :
+    (∀ as evType, eraseQ (execActions hA as evType a) = eraseQ (execActions (hooksFlagged u m) as evType b)) ∧
+    (∀ ev pl, eraseQ (runPlan hA .async m ev pl a) = eraseQ (runPlan (hooksFlagged u m) .sync m ev pl b)) ∧
+    (∀ ev pl, eraseQ (execute hA .async m ev pl a) = eraseQ (execute (hooksFlagged u m) .sync m ev pl b)) ∧
+    (∀ ev, eraseQ (processEvent hA .async m u ev a) = eraseQ (processEvent (hooksFlagged u m) .sync m u ev b)) ∧
+    (∀ n, eraseQ (transientLoop hA .async m u n a) = eraseQ (transientLoop (hooksFlagged u m) .sync m u n b)) := by
+  have hT : ∀ (r : String) (l1 l2 : List String), l1 = l2 → r :: l1 = r :: l2 := fun _ _ _ h => by rw [h]
+  have hs : ∀ t, HSim Eq Eq hA (hooksFlagged u m) t t := by
+    intro t
+    rcases hh with rfl | rfl
+    · exact hsim_async hT u hu m t
+    · exact hsim_asyncStart hT u hu m t
+  have h' := (sim_eq_iff a b).2 h
+  exact ⟨fun as evType => (sim_eq_iff _ _).1 (execActions_sim (hs evType) as h'),
+    fun ev pl => (sim_eq_iff _ _).1 (runPlan_sim _ _ m ev pl (hs _) h'),
+    fun ev pl => (sim_eq_iff _ _).1 (execute_sim _ _ m ev pl (hs _) h'),
+    fun ev => (sim_eq_iff _ _).1 (processEvent_sim _ _ m u ev (hs _) h'),
+    fun n => (sim_eq_iff _ _).1 (transientLoop_sim _ _ m u (hs _) n a b h')⟩
+
+/-- **(2, two states) one `send`.** From `Agrees`-related states (an async one and a sync one — e.g. the
+    states two whole runs are in), if the async breaker does not trip while the event is digested, the sync
+    drain does not exhaust its budget with events still queued, and the sync `send` raises nothing, the
+    states after the `send` are `Agrees`-related again. -/
+theorem send_agree_from (m : Machine) (u : UEnv) (hu : NoCoroutine u) (T : List String → List String → Prop)
+    (hT : ∀ r l1 l2, T l1 l2 → T (r :: l1) (r :: l2)) (e : Ev) {a b : St} (hs : Agrees T a b)
+    (ht : sendTrips m u e a = 0) (hc : sendCut m u e b = false) (he : (syncSend m u e b).err = none) :
+    Agrees T (asyncSend m u e a) (syncSend m u e b) :=
+  send_sim hT hu e hs ht hc he
+
+/-- **(2) `send_agree`.** For an idle running state `s` (nothing queued, counter 0): if the breaker does not
+    trip during `asyncSend m u e s`, the drain of `syncSend m u e s` does not exhaust its budget, and the sync
+    `send` raises nothing (no macrostep of the drain fails — a failure would abort the sync drain with the rest
+    still queued while the async loop logs it and goes on), both engines end with the same configuration,
+    history, context, status, error flag and trace (same records, same order); the sync queue is empty; and if
+    the machine is still running the states are `eraseQ`-equal outright, the async queue is empty too and its
+    counter is back at 0 — the state is idle again. (`s.err = none` is not needed: a pending error makes the
+    sync `send` raise.) -/
+theorem send_agree (m : Machine) (u : UEnv) (hu : NoCoroutine u) (e : Ev) (s : St)
+    (hq : s.queue = []) (hd : s.raiseDepth = 0) (_hr : s.status = "running")
+    (ht : sendTrips m u e s = 0) (hc : sendCut m u e s = false) (he : (syncSend m u e s).err = none) :
+    eraseQ (dropDead (asyncSend m u e s)) = eraseQ (dropDead (syncSend m u e s)) ∧
+    (syncSend m u e s).queue = [] ∧
+    ((asyncSend m u e s).status = "running" →
+      eraseQ (asyncSend m u e s) = eraseQ (syncSend m u e s) ∧
+      (asyncSend m u e s).queue = [] ∧ (asyncSend m u e s).raiseDepth = 0) := by
+  have hA : Agrees Eq (asyncSend m u e s) (syncSend m u e s) :=
+    send_sim (fun _ _ _ h => by rw [h]) hu e (Sim.refl (fun _ => rfl) s).agree ht hc he
+  refine ⟨(agree_eq_iff _ _).1 hA, syncSend_queue_nil e (fun _ => hq) he, fun hra => ?_⟩
+  obtain ⟨q1, q2⟩ := asyncSend_quiet m u e s (fun _ => ⟨hq, hd⟩) hra
+  exact ⟨(sim_eq_iff _ _).1 (hA.sim hra), q1, q2⟩
+
+/-- **(2, usable form) short chains reach neither bound.** For an idle state: if the machine sends itself
+    fewer than `maxIterations` events while `e` is digested (`asyncSelfSends`: every `raise` and every
+    `done.state.*` delivered while the async loop is processing, over the whole chain), the breaker does not
+    trip and the sync budget (which also counts `e` itself) is not exhausted. -/
+theorem send_bounds_of_short_chain (m : Machine) (u : UEnv) (hu : NoCoroutine u) (e : Ev) (s : St)
+    (hq : s.queue = []) (hd : s.raiseDepth = 0)
+    (hshort : asyncSelfSends m u (asyncFuel m) (pushExt e s) < m.maxIterations) :
+    sendTrips m u e s = 0 ∧ sendCut m u e s = false :=
+  send_cutFree_of_short (T := Eq) (fun _ _ _ h => by rw [h]) hu e (Sim.refl (fun _ => rfl) s).agree
+    (fun _ => ⟨hq, hd⟩) (fun _ => hshort)
+
+/-- **(3) `start_agree`.** `start()` from any state `s`: if the breaker does not trip while the async loop
+    digests what the initial entry and settling queued, the sync drain does not exhaust its budget on it, and
+    the sync `start()` raises nothing, both engines end with the same configuration, history, context, status,
+    error flag, (live) queue — and traces that agree record by record up to the start tag (`StartTag`: equal,
+    or the same action tagged `___xstate_statemachine_init___` by the async engine and `entry.<state id>` by
+    the sync engine). The sync queue is empty; a running async interpreter is idle. -/
+theorem start_agree (m : Machine) (u : UEnv) (hu : NoCoroutine u) (hb : StartBlind m u) (s : St)
+    (ht : asyncTrips m u (asyncFuel m) (asyncStartSettled m u s) = 0)
+    (hc : drainCut m u m.maxIterations (syncStartSettled m u s) = false)
+    (he : (syncStart m u s).err = none) :
+    Agrees (TrRel (StartTag m)) (asyncStart m u s) (syncStart m u s) ∧
+    (syncStart m u s).queue = [] ∧
+    (s.raiseDepth = 0 → (asyncStart m u s).status = "running" →
+      (asyncStart m u s).queue = [] ∧ (asyncStart m u s).raiseDepth = 0) :=
+  ⟨start_sim hu hb (Sim.refl (trRel_refl_startTag m) s) ht hc he, syncStart_queue_nil s he,
+   fun hd hr => asyncStart_quiet m u s hd hr⟩
+
+/-- **(3, usable form)** what `start()` queues plus what the machine then sends itself fits `maxIterations` -/
+theorem start_bounds_of_short_chain (m : Machine) (u : UEnv) (hu : NoCoroutine u) (hb : StartBlind m u) (s : St)
+    (hd : s.raiseDepth = 0)
+    (hshort : (asyncStartSettled m u s).queue.length +
+      asyncSelfSends m u (asyncFuel m) (asyncStartSettled m u s) ≤ m.maxIterations) :
+    asyncTrips m u (asyncFuel m) (asyncStartSettled m u s) = 0 ∧
+    drainCut m u m.maxIterations (syncStartSettled m u s) = false :=
+  start_cutFree_of_short hu hb (Sim.refl (trRel_refl_startTag m) s) hd hshort
+
+/-- **(4) `run_agree`: whole runs.** `start()`, then the events of `evs` sent one by one (each once the
+    previous one is digested; `cmd`: the command clears the error flag of the previous one). If neither bound
+    is reached at any step (`CutFree`, decidable) and the sync engine raises at no step (`NoFail`, decidable),
+    then after `start()` the engines agree up to the start tag, and after EVERY prefix of `evs` they have the
+    same configuration, history, context, status, error flag (none) and live queue (empty), and their traces
+    are the traces of `start()` with the SAME new records on top (`SplitAt`). The idleness `send_agree` needs
+    is derived, not assumed: a running async interpreter has an empty queue and its counter at 0. -/
+theorem run_agree (m : Machine) (u : UEnv) (hu : NoCoroutine u) (hb : StartBlind m u) (evs : List Ev)
+    (hc : CutFree m u evs) (hf : NoFail m u evs) :
+    Agrees (TrRel (StartTag m)) (asyncStart m u {}) (syncStart m u {}) ∧
+    ∀ k : Nat,
+      Agrees (SplitAt (asyncStart m u {}).trace (syncStart m u {}).trace)
+        ((evs.take k).foldl (cmd .async m u) (asyncStart m u {}))
+        ((evs.take k).foldl (cmd .sync m u) (syncStart m u {})) ∧
+      ((evs.take k).foldl (cmd .sync m u) (syncStart m u {})).err = none ∧
+      ((evs.take k).foldl (cmd .sync m u) (syncStart m u {})).queue = [] ∧
+      (((evs.take k).foldl (cmd .async m u) (asyncStart m u {})).status = "running" →
+        ((evs.take k).foldl (cmd .async m u) (asyncStart m u {})).queue = [] ∧
+        ((evs.take k).foldl (cmd .async m u) (asyncStart m u {})).raiseDepth = 0) := by
+  refine ⟨start_agree_core hu hb evs hc hf, fun k => ?_⟩
+  obtain ⟨h1, h2, h3⟩ := run_agree_core hu hb evs hc hf k
+  exact ⟨h1, h2, h3, fun hr => async_run_quiet m u (evs.take k) hr⟩
+
+/-- **(4, usable form)** short chains at every step (`ShortChains`, decidable, counted on the async run) and
+    no failure imply `CutFree`, hence the agreement of the whole run -/
+theorem run_agree_of_short_chains (m : Machine) (u : UEnv) (hu : NoCoroutine u) (hb : StartBlind m u)
+    (evs : List Ev) (hs : ShortChains m u evs) (hf : NoFail m u evs) :
+    CutFree m u evs ∧
+    ∀ k : Nat,
+      Agrees (SplitAt (asyncStart m u {}).trace (syncStart m u {}).trace)
+        ((evs.take k).foldl (cmd .async m u) (asyncStart m u {}))
+        ((evs.take k).foldl (cmd .sync m u) (syncStart m u {})) :=
+  ⟨cutFree_of_shortChains hu hb evs hs hf,
+   fun k => (run_agree_core hu hb evs (cutFree_of_shortChains hu hb evs hs hf) hf k).1⟩
+
+/-! ### Non-vacuity: a parallel state, an `always` transition, a `raise`, a final state
+
+```
+w (initial P, maxIterations 4)
+├─ P (parallel)      entry en:P, raise BOOT          on FIN: fin → f
+│  ├─ A (initial a1)
+│  │  ├─ a1          entry en:a1                     on GO: go, raise PING → a2
+│  │  ├─ a2          entry en:a2                     always: hop → a3
+│  │  └─ a3          entry en:a3
+│  └─ B (initial b1)
+│     ├─ b1          entry en:b1                     on BOOT: boot;  on PING: ping → b2
+│     └─ b2          entry en:b2
+└─ f (final)         entry en:f
+```
+-/
+namespace WholeEx
+def wM : Machine :=
+  { id := "w", maxIterations := 4, customIds := [],
+    root := .mk (mkD .compound (some "P")) [
+      ("P", .mk (mkD .parallel none [("FIN", [mkT 9 "FIN" (some "f") [⟨"fin", none⟩]])]
+                  [⟨"en:P", none⟩, XSM.Term.Ex.raiseA "BOOT"]) [
+        ("A", .mk (mkD .compound (some "a1")) [
+          ("a1", .mk (mkD .atomic none [("GO", [mkT 0 "GO" (some "a2") [⟨"go", none⟩, XSM.Term.Ex.raiseA "PING"]])]
+                      [⟨"en:a1", none⟩]) []),
+          ("a2", .mk (mkD .atomic none [("", [mkT 1 "" (some "a3") [⟨"hop", none⟩]])] [⟨"en:a2", none⟩]) []),
+          ("a3", .mk (mkD .atomic none [] [⟨"en:a3", none⟩]) [])]),
+        ("B", .mk (mkD .compound (some "b1")) [
+          ("b1", .mk (mkD .atomic none [("BOOT", [mkT 2 "BOOT" none [⟨"boot", none⟩]]),
+                                        ("PING", [mkT 3 "PING" (some "b2") [⟨"ping", none⟩]])]
+                      [⟨"en:b1", none⟩]) []),
+          ("b2", .mk (mkD .atomic none [] [⟨"en:b2", none⟩]) [])])]),
+      ("f", .mk (mkD .final none [] [⟨"en:f", none⟩]) [])] }
+/-- `GO` (raises `PING`, then the `always` hop), an ignored event, `FIN` (completes the machine), and an
+    event sent to the finished machine -/
+def wEvs : List Ev := [.user "GO", .user "X", .user "FIN", .user "GO"]
+def runA (m : Machine) (u : UEnv) (evs : List Ev) : St := evs.foldl (cmd .async m u) (asyncStart m u {})
+def runS (m : Machine) (u : UEnv) (evs : List Ev) : St := evs.foldl (cmd .sync m u) (syncStart m u {})
+end WholeEx
+open WholeEx
+
+/-- the marker environment of C13 (`u0`: every guard true, every action a marker; `raise` / `assign` /
+    `choose` left to the built-ins) registers no coroutine and never looks at the event name -/
+theorem u0_noCoroutine : NoCoroutine XSM.Term.Ex.u0 := by
+  intro n c e c'
+  unfold XSM.Term.Ex.u0
+  simp only
+  split <;> intro h <;> cases h
+theorem u0_startBlind (m : Machine) : StartBlind m XSM.Term.Ex.u0 := fun _ _ _ => ⟨rfl, rfl⟩
+
+/-- the hypotheses of `run_agree` hold on this run … -/
+example : CutFree wM XSM.Term.Ex.u0 wEvs := by decide +kernel
+example : NoFail wM XSM.Term.Ex.u0 wEvs := by decide +kernel
+/-- … also by the usable criterion (`BOOT` queued by `start()`; one self-sent `PING` while `GO` is digested) -/
+example : ShortChains wM XSM.Term.Ex.u0 wEvs := by decide +kernel
+/-- … so its conclusion holds at every prefix; evaluated, after the whole list: -/
+example : (runA wM XSM.Term.Ex.u0 wEvs).cfg = (runS wM XSM.Term.Ex.u0 wEvs).cfg ∧
+    (runA wM XSM.Term.Ex.u0 wEvs).status = (runS wM XSM.Term.Ex.u0 wEvs).status ∧
+    (runA wM XSM.Term.Ex.u0 wEvs).hist = (runS wM XSM.Term.Ex.u0 wEvs).hist ∧
+    (runA wM XSM.Term.Ex.u0 wEvs).ctx = (runS wM XSM.Term.Ex.u0 wEvs).ctx ∧
+    (runA wM XSM.Term.Ex.u0 wEvs).errors = (runS wM XSM.Term.Ex.u0 wEvs).errors ∧
+    (runS wM XSM.Term.Ex.u0 wEvs).cfg = [[], ["f"]] ∧ (runS wM XSM.Term.Ex.u0 wEvs).status = "done" := by
+  decide +kernel
+/-- the records of the sends are the same, in the same order, and sit on top of the records of `start()` … -/
+example : ∃ new, (runA wM XSM.Term.Ex.u0 wEvs).trace = new ++ (asyncStart wM XSM.Term.Ex.u0 {}).trace ∧
+    (runS wM XSM.Term.Ex.u0 wEvs).trace = new ++ (syncStart wM XSM.Term.Ex.u0 {}).trace ∧
+    new = ["#t:w,w.f", "en:f@FIN", "fin@FIN", "#recv:FIN", "#recv:X",
+           "#t:w,w.P,w.P.A,w.P.B,w.P.A.a3,w.P.B.b2", "en:b2@PING", "ping@PING", "#recv:PING",
+           "#t:w,w.P,w.P.A,w.P.B,w.P.B.b1,w.P.A.a3", "en:a3@", "hop@",
+           "#t:w,w.P,w.P.A,w.P.B,w.P.B.b1,w.P.A.a2", "en:a2@GO", "go@GO", "#recv:GO"] :=
+  ⟨_, by decide +kernel, by decide +kernel, rfl⟩
+/-- … which differ in the start tag only (the `BOOT` raised by `P`'s entry is digested by `start()` itself) -/
+example : (asyncStart wM XSM.Term.Ex.u0 {}).trace =
+      ["#t:w,w.P,w.P.A,w.P.A.a1,w.P.B,w.P.B.b1", "boot@BOOT", "#recv:BOOT", "en:b1@___xstate_statemachine_init___",
+       "en:a1@___xstate_statemachine_init___", "en:P@___xstate_statemachine_init___"] ∧
+    (syncStart wM XSM.Term.Ex.u0 {}).trace =
+      ["#t:w,w.P,w.P.A,w.P.A.a1,w.P.B,w.P.B.b1", "boot@BOOT", "#recv:BOOT", "en:b1@entry.w.P.B.b1",
+       "en:a1@entry.w.P.A.a1", "en:P@entry.w.P"] := by decide +kernel
+
+/-- **the side condition is necessary.** `burstM` (C13; bound 3): `E` raises `R` four times in one step. No
+    command fails, but `CutFree` does not hold — the async breaker trips on the first `R` and purges all four,
+    the sync drain processes two of them before its budget is exhausted — and the runs differ. -/
+example : NoFail XSM.Term.Ex.burstM XSM.Term.Ex.u0 [.user "E"] ∧ ¬ CutFree XSM.Term.Ex.burstM XSM.Term.Ex.u0 [.user "E"] ∧
+    sendTrips XSM.Term.Ex.burstM XSM.Term.Ex.u0 (.user "E") (asyncStart XSM.Term.Ex.burstM XSM.Term.Ex.u0 {}) = 1 ∧
+    sendCut XSM.Term.Ex.burstM XSM.Term.Ex.u0 (.user "E") (syncStart XSM.Term.Ex.burstM XSM.Term.Ex.u0 {}) = true := by
+  decide +kernel
+example : (runA XSM.Term.Ex.burstM XSM.Term.Ex.u0 [.user "E"]).trace = ["#t:m,m.a", "#recv:E"] ∧
+    (runS XSM.Term.Ex.burstM XSM.Term.Ex.u0 [.user "E"]).trace =
+      ["#t:m,m.a", "sawR@R", "#recv:R", "#t:m,m.a", "sawR@R", "#recv:R", "#t:m,m.a", "#recv:E"] := by decide +kernel
+
+/-- **`StartBlind` is necessary.** `en:P` looks at the event name it is handed and sets `x` under the async
+    engine's init event only: neither bound is reached, nothing fails, and yet `start()` leaves different
+    contexts. -/
+def uTag : UEnv :=
+  { g := fun _ _ _ => .t,
+    a := fun n c e => if n = "raise" then .missing
+      else if n = "en:P" ∧ e = initTag then .ok (ctxSet c "x" 1) else .ok c }
+example : CutFree wM uTag wEvs ∧ NoFail wM uTag wEvs ∧
+    (asyncStart wM uTag {}).ctx = [("x", 1)] ∧ (syncStart wM uTag {}).ctx = [] := by decide +kernel
+
+/-- **`NoCoroutine` is necessary** (and not implied by `NoFail`). In `pM` (previous section) the `choose`
+    branch taken on `GO` starts with `yes`; make `yes` a coroutine: the sync engine refuses it, but INSIDE a
+    `choose` the refusal is contained (`#aerr:choose`: the rest of the branch — `assign`, `raise NEXT` — is
+    skipped, `send` does not raise), while the async engine runs the branch and completes the machine. -/
+def uCo : UEnv :=
+  { g := pU.g,
+    a := fun n c _ => if (canonicalBuiltin n).isSome then .missing else if n = "yes" then .isAsync c else .ok c }
+example : CutFree pM uCo [.user "OUT", .user "GO"] ∧ NoFail pM uCo [.user "OUT", .user "GO"] ∧
+    (runA pM uCo [.user "OUT", .user "GO"]).status = "done" ∧ (runS pM uCo [.user "OUT", .user "GO"]).status = "running" ∧
+    (runA pM uCo [.user "OUT", .user "GO"]).ctx = [("n", 1)] ∧ (runS pM uCo [.user "OUT", .user "GO"]).ctx = [("n", 0)] := by
+  decide +kernel
+
+end whole_runs
 
 end XSM.C05
